@@ -54,6 +54,8 @@ func (sc *c07Scn) ref(user int, r string) string {
 		return r
 	case r == "new":
 		return "new" + strconv.Itoa(sc.opi) + "x"
+	case r == "nch": // a new channel-enabled group
+		return "nch" + strconv.Itoa(sc.opi) + "x"
 	case r[0] == 'u':
 		v, _ := strconv.Atoi(r[1:])
 		return sc.userName(v)
@@ -201,7 +203,7 @@ func (sc *c07Scn) op(w []string) {
 		}
 		name := sc.ref(user, a[0])
 		send(`{"sub":{"id":"` + id + `","topic":"` + name + `"` + set + `}}`)
-		if a[0] == "new" {
+		if a[0] == "new" || a[0] == "nch" {
 			sc.quiet()
 			if vs := sc.sess[si]; vs != nil {
 				vs.mu.Lock()
